@@ -56,7 +56,14 @@ MANIFEST = dict(
         "default batch size) under ASan/UBSan (thorough tier exhaustive over (n, k, batch size incl. 0) for n <= 30), plus an independent in-harness "
         "oracle: training indices = complement, validation/training elements = the batches of the dataset they name, disjointness, cover, pairing, "
         "fold sizes, class balance, per-fold batch count / batch sizes (ceil, <= max, differ by <= 1), requested fold, recreation indices, shapes, "
-        "repeated access, weights stay with their elements. A third harness binary built WITHOUT NDEBUG runs the corpus and a sample of the "
+        "repeated access, weights stay with their elements. INCOMING BATCH LAYOUT: a quarter of the histories first bring the dataset variable "
+        "into an arbitrary batch layout (ops data / repart / splitat / splice with keep-head, keep-tail, append variants: random compositions, "
+        "single batch, all-singleton batches, splitAtElement / splice / append results, layouts with exactly the target number of batches but "
+        "other sizes or the target sizes rotated, layouts left by earlier CV constructions and re-cut; some with 300-1100 elements and the "
+        "default batch size) and then call a construction function on it; all clause oracles above apply to every construction (first call, "
+        "`again`, `nest`), plus an independent second-code-path oracle inside the harness (exact, no tolerance): for createCVIndexed / "
+        "FullyIndexed / IID / SameSize / SameSizeBalanced the same call with the same seed on a copy of the elements in the fresh "
+        "createLabeledDataFromRange layout must give the same reorganised dataset and validation index sets. A third harness binary built WITHOUT NDEBUG runs the corpus and a sample of the "
         "histories with the assertions of the real code (SIZE_CHECK / SHARK_ASSERT / RANGE_CHECK) active."),
   note=TRUST + "modelling shortcut: subBatch's gather is modelled as picking the elements before the dealing loop runs; for well-formed datasets, "
        "existing positions and fold numbers below k this is proved equal to dealing the positions and gathering every completed batch "
@@ -73,7 +80,8 @@ MANIFEST = dict(
 
 FINISH = dict(level="proof",
               rule="histories = one fold-construction call (function, fold count, max batch size incl. 0, initial batching, labels, index vectors, seed) "
-                   "followed by 0-4 CVFolds operations / further constructions / nested constructions, all from one SplitMix64 stream; thorough tier "
+                   "followed by 0-4 CVFolds operations / further constructions / nested constructions / re-layouts of the dataset variable, or (1 in 4) a "
+                   "layout history = dataset + 1-3 layout ops (repartition / splitAtElement / splice / append) + construction + 0-2 follow-ups, all from one SplitMix64 stream; thorough tier "
                    "additionally all (n, k, batch size) with n <= 30 for samesize/balanced/indexed; non-trivial = a construction with at least 2 folds "
                    "and n not divisible by k or by the batch size; distinct = distinct op text")
 
@@ -174,10 +182,17 @@ def gen_ctor(ctx, r):
 def gen_follow(ctx, r, nb, n, kcur):
     """one follow-up line on the state; nb = (guessed) number of batches of the current folds' dataset, kcur = its fold count
     -> (line, nb, kcur)"""
-    kind = r.choice(["show", "prev", "copy", "starts", "starts", "sets", "sets", "wsets", "wstarts", "again", "again", "nest", "nest", "nest"])
+    kind = r.choice(["show", "prev", "copy", "starts", "starts", "sets", "sets", "wsets", "wstarts", "again", "again", "nest", "nest", "nest", "relayout", "relayout"])
     ctx.hist("follow_up", kind)
     if kind in ("show", "prev", "copy"):
         return kind, nb, kcur
+    if kind == "relayout":
+        # change the batch layout of the dataset variable (left by the previous construction); the next `again` / history step meets it
+        sub = r.below(4)
+        if sub == 0: return "repart " + " ".join(map(str, composition(r, n, r.range(1, min(n, 10))))), nb, kcur
+        if sub == 1: return "repart " + " ".join(map(str, composition(r, n, max(1, min(n, nb))))), nb, kcur
+        if sub == 2 and n >= 2: return f"splitat {r.range(1, n - 1)} {r.choice([2, 3])}", nb, kcur
+        return f"splice {r.range(1, max(1, nb - 1))} {r.choice([2, 3])}", nb, kcur
     if kind in ("starts", "wstarts"):
         m = r.range(1, min(nb, 4) + 1)
         st = sorted(r.below(nb + 1) for _ in range(m))
@@ -211,7 +226,102 @@ def gen_follow(ctx, r, nb, n, kcur):
     return f"nest {w} {r.below(max(1, kcur))} " + tail, max(1, r.range(1, k + 2)), k
 
 
+def optimal_batch_sizes(n, m):
+    """detail::optimalBatchSizes (generator-side copy, used only to aim the layouts; a wrong guess only makes an op `undefined`)"""
+    if n == 0: return []
+    if m == 0: m = n
+    b = n // m + (1 if n % m else 0)
+    o, rem = n // b, n % b
+    return [o + 1 if j < rem else o for j in range(b)]
+
+
+def samesize_layout(n, k, bs):
+    out = []
+    for i in range(k):
+        out += optimal_batch_sizes(n // k + (1 if i < n % k else 0), bs)
+    return out
+
+
+def composition(r, n, m):
+    """n as an ordered sum of m positive parts (1 <= m <= n), random"""
+    cuts = set()
+    while len(cuts) < m - 1:
+        cuts.add(r.range(1, n - 1))
+    cuts = sorted(cuts)
+    return [b - a for a, b in zip([0] + cuts, cuts + [n])]
+
+
+def gen_layout_case(ctx, r):
+    """a dataset whose batch layout is NOT the fresh createLabeledDataFromRange layout -- left by repartition / splitAtElement / splice /
+    append histories, single batch, all-singleton batches, exactly the target number of batches with other sizes -- then a fold construction on it"""
+    big = r.below(40) == 0
+    if big:
+        n = r.range(300, 1100); m0 = r.choice([0, 0, 100, 250]); ctx.count("layout_large_n")
+    else:
+        n = r.choice([2, 3, 4, 5, 6, 7, 9, 10, 12, 16, 17, 22, 24, 25, r.range(2, 60), r.range(2, 60)])
+        m0 = r.choice([0, 1, 2, 3, 4, n, r.range(1, n + 1)])
+    labels = labels_for(ctx, r, n, 2)
+    lines = ["new", f"data {m0} {n} " + " ".join(map(str, labels))]
+    part = optimal_batch_sizes(n, m0 or 256)
+    fn = r.choice(["samesize", "samesize", "samesize", "balanced", "balanced", "indexed", "fully", "iid", "batch"])
+    k = r.choice([1, 2, 2, 3, 3, 4, 5, r.range(1, n), r.range(1, n)]) if not big else r.choice([2, 3, 3, 4, 5])
+    bs = r.choice([256, 256, 100, 0, 64]) if big else r.choice([0, 1, 2, 2, 3, 4, 5, n, r.range(1, n + 2), 256])
+    for _ in range(r.range(1, 3)):
+        n = sum(part)
+        kk = max(1, min(k, n))
+        kind = r.choice(["target-count", "target-count", "target-count", "random", "random", "single", "singletons", "splitat", "splitat", "splitat", "splice", "splice"])
+        if big and kind == "singletons": kind = "splitat"
+        if kind == "target-count":
+            # exactly as many batches as createCVSameSize / Balanced / Indexed will ask for, but other sizes
+            tgt = samesize_layout(n, kk, bs)
+            new = composition(r, n, len(tgt))
+            if r.below(2): new = sorted(new, reverse=bool(r.below(2)))
+            if r.below(3) == 0 and len(tgt) > 1: new = tgt[1:] + tgt[:1]          # the target sizes, rotated
+            ctx.hist("layout_target_count", "same-sizes" if new == tgt else "same-count-other-sizes")
+            part = new; lines.append("repart " + " ".join(map(str, part)))
+        elif kind == "random":
+            part = composition(r, n, r.range(1, min(n, 12))); lines.append("repart " + " ".join(map(str, part)))
+        elif kind == "single":
+            part = [n]; lines.append(f"repart {n}")
+        elif kind == "singletons":
+            part = [1] * n; lines.append("repart " + " ".join(["1"] * n))
+        elif kind == "splitat":
+            if n < 2: continue
+            e = r.range(1, n - 1); w = r.choice([0, 1, 2, 2, 2, 3, 3])
+            hd, tl, acc = [], [], 0
+            for sz in part:
+                if acc + sz <= e: hd.append(sz)
+                elif acc >= e: tl.append(sz)
+                else: hd.append(e - acc); tl.append(acc + sz - e)
+                acc += sz
+            part = [hd, tl, hd + tl, tl + hd][w]; lines.append(f"splitat {e} {w}")
+        else:
+            if len(part) < 2: continue
+            b = r.range(1, len(part) - 1); w = r.choice([0, 1, 2, 3, 3, 3])
+            hd, tl = part[:b], part[b:]
+            part = [hd, tl, hd + tl, tl + hd][w]; lines.append(f"splice {b} {w}")
+        ctx.hist("layout_op", kind)
+    n = sum(part)
+    k = max(1, min(k, n))
+    fresh = optimal_batch_sizes(n, 256)
+    tgt = samesize_layout(n, k, bs)
+    ctx.hist("incoming_layout", "fresh-default" if part == fresh else "target-layout" if part == tgt else
+             "target-count-other-sizes" if len(part) == len(tgt) else "single-batch" if len(part) == 1 else
+             "all-singletons" if max(part) == 1 else "uneven" if max(part) > min(part) + 1 else "even-other")
+    ctx.hist("layout_function", fn)
+    if len(part) == len(tgt) and part != tgt and fn in ("samesize", "balanced"): ctx.count("layout_same_count_other_sizes_into_equal_size_folds")
+    lines.append(f"again {FN_NUM[fn]} {k} {bs} {r.below(1000000)} {r.range(1, 8)} {r.below(8)}")
+    nb = len(tgt)
+    kcur = k
+    for _ in range(r.below(3)):
+        l, nb, kcur = gen_follow(ctx, r, nb, n, kcur)
+        lines.append(l)
+    return lines
+
+
 def gen_case(ctx, r):
+    if r.below(4) == 0:
+        return gen_layout_case(ctx, r)
     op, nb, n = gen_ctor(ctx, r)
     if r.below(3) == 0:
         return [op]
